@@ -541,7 +541,7 @@ func runC05(c *Ctx) {
 	depth := 3
 	cfgs := []Cfg{{}, {Cache: true}, {Compress: true, Ext: ".obj"}, {Async: 1}}
 	if c.Tier == "thorough" {
-		depth = 4
+		depth = 5
 		cfgs = append(cfgs, Cfg{Async: 2, Compress: true}, Cfg{Index: 2, Lower: true})
 	}
 	item := 0
